@@ -4,6 +4,7 @@ import fcntl
 import hashlib
 import json
 import os
+import re
 import shutil
 import subprocess
 import sys
@@ -248,6 +249,12 @@ def run_sharded(tag, shards, commands, workdir):
         outp = os.path.join(workdir, "%s.%d.%s" % (tag, i, name))
         with open(outp, "w") as f:
             p = subprocess.run(pre + argv, stdout=f, stderr=subprocess.PIPE, text=True, errors="replace")
+        if p.returncode == 124 and "HV-TIMEOUT" in p.stderr:
+            # the harness watchdog: one case did not return; record it as an observation of that case
+            m = re.search(r"HV-TIMEOUT (\S+) (.*)", p.stderr)
+            if m:
+                with open(outp, "a") as f:
+                    f.write("%s XTIMEOUT %s\n" % (m.group(1), m.group(2)))
         return name, i, outp, p.returncode, p.stderr[-300:]
 
     results = {}
